@@ -5,7 +5,14 @@ from lib.ctx import Ctx
 
 def make_jobs(ctx, n_defs, n_points, want, **genkw):
     jobs, meta = [], []
+    fixed = M.function_coverage_definitions()
     for k in range(n_defs):
+        if k < len(fixed):
+            d = fixed[k]
+            for cse in (False, True):
+                jobs.append({"defn": d, "cse": cse, "decl": {"container": "list", "perm_seed": k}, "points": M.function_coverage_points(d), "want": want})
+                meta.append((k, cse))
+            continue
         rational = (k % 2 == 0)
         kw = dict(genkw)
         if k % 7 == 3:
